@@ -528,6 +528,12 @@ impl<E: FlowKeyExtractor> UdpManager<E> {
                 }
             }
         }
+        // The shell's idle timer is one-shot and this call means it fired -
+        // possibly before the deadline, since the timer wheel rounds to its
+        // tick. Forget the armed deadline so that `reschedule` re-emits
+        // `ArmTimer` for whatever is still scheduled; otherwise an early firing
+        // leaves the flows with no timer at all and they are never reaped.
+        self.armed_deadline = None;
         self.reschedule();
 
         // Strict-advance guard: after firing every flow due at `now`, the next
